@@ -1,7 +1,7 @@
 (** C29 — networks deliver every message exactly once with metadata intact.
     Property theorems only. *)
 From Coq Require Import Permutation.
-From Akita Require Import Lib.Base C30.Model C30.ProofsMesh C31.Model C29.Model C29.ProofsAcc C29.ProofsNet C29.ProofsMeshRank C29.ProofsMeshNet.
+From Akita Require Import Lib.Base C30.Model C30.ProofsMesh C31.Model C29.Model C29.ProofsAcc C29.ProofsNet C29.ProofsMeshRank C29.ProofsMeshNet C29.ProofsTreeNet.
 
 (** Soundness of the acceptor that every real run is checked against: a trace of
     device-port events that it accepts satisfies, at every position, the
@@ -173,6 +173,75 @@ Example c29_mesh_nonvacuous :
   run (mnext size) (fun _ => 1) (mesh_initial size pkts) cs = Some st /\
   n_done st = [(4%N, 2); (2%N, 0); (1%N, 3); (3%N, 3)] /\ concat (n_chan st) = [].
 Proof. vm_compute. repeat split; reflexivity. Qed.
+
+(** * Trees (PCIe), concretely
+
+    Nodes [0 .. n-1] (switches and, as leaves, the device endpoints), node 0 the
+    root complex, [par v < v] the parent of [v > 0] — the shape every sequence of
+    AddRootComplex / AddSwitch / PlugInDevice calls produces.  Each link has a
+    bounded up channel and a bounded down channel, each node an ejection channel;
+    a message goes up until the node it is at is an ancestor of its destination,
+    then down (the unique shortest path).  The channel ranking: up channels by
+    decreasing depth, then down channels by increasing depth, then ejection
+    ([tree_channel_ranking]).
+
+    For EVERY such tree, EVERY positive capacities, EVERY set of messages between
+    nodes and EVERY arbitration [cs]: messages are conserved, the execution is
+    finite, some move is enabled while anything is in flight, and when nothing
+    can move every message has been handed to its destination exactly once. *)
+Theorem c29_tree_delivery_progress : forall n par cap pkts,
+  (forall v, 0 < v < n -> par v < v) ->
+  (forall c, 1 <= cap c) ->
+  (forall p, In p pkts -> snd (fst p) < n /\ snd p < n) ->
+  let st0 := tree_initial n par pkts in
+  let msgs := map (fun p => (fst (fst p), snd p)) pkts in
+  (forall cs st', run (tnext n par) cap st0 cs = Some st' ->
+     Permutation (all_pkts st') msgs /\
+     length cs <= measure (tpot n par) st0 /\
+     (in_flight st' <> [] -> exists c st'', move (tnext n par) cap st' c = Some st'') /\
+     ((forall c, move (tnext n par) cap st' c = None) ->
+      in_flight st' = [] /\ Permutation (n_done st') msgs)) /\
+  (exists cs st', run (tnext n par) cap st0 cs = Some st' /\ in_flight st' = [] /\ Permutation (n_done st') msgs).
+Proof.
+  intros n par cap pkts Hpar Hcap Hin st0 msgs.
+  pose proof (tree_initial_wf n par Hpar pkts Hin) as Hw. fold st0 in Hw.
+  pose proof (tree_initial_pkts n par Hpar pkts Hin) as Hp. fold st0 in Hp. fold msgs in Hp.
+  pose proof (tnext_ok n par Hpar) as Hok.
+  split.
+  - intros cs st' Hr.
+    assert (Hw' : wf (tnchan n) (tvalid n par) st').
+    { eapply run_wf; eauto. }
+    split; [etransitivity; [apply Permutation_sym; eapply run_conserves; exact Hr|exact Hp]|].
+    assert (Hb : length cs + measure (tpot n par) st' <= measure (tpot n par) st0) by (eapply run_bounded; eauto).
+    split; [lia|].
+    split.
+    + intro Hne. eapply no_deadlock; eauto.
+    + intro Hs. assert (Hm : in_flight st' = [] /\ Permutation (n_done st') (all_pkts st0)) by (eapply maximal_run_delivers; eauto).
+      destruct Hm as [H1 H2].
+      split; [exact H1|]. etransitivity; [exact H2|exact Hp].
+  - assert (Hex : exists cs st', run (tnext n par) cap st0 cs = Some st' /\ length cs <= measure (tpot n par) st0 /\
+                    in_flight st' = [] /\ Permutation (n_done st') (all_pkts st0)) by (eapply delivering_run_exists; eauto).
+    destruct Hex as [cs [st' [Hr [_ [H1 H2]]]]].
+    exists cs, st'. split; [exact Hr|]. split; [exact H1|]. etransitivity; [exact H2|exact Hp].
+Qed.
+Print Assumptions c29_tree_delivery_progress.
+
+(** Non-vacuity: root 0 with switches 1, 2; leaves 3, 4 under 1 and 5 under 2;
+    one-slot channels; four messages (across the root, into a sibling, local). *)
+Example c29_tree_nonvacuous :
+  let par := fun v => nth v [0; 0; 0; 1; 1; 2] 0 in
+  let pkts := [(1%N, 3, 5); (2%N, 5, 4); (3%N, 3, 4); (4%N, 4, 4)] in
+  (forall v, 0 < v < 6 -> par v < v) /\
+  let '(cs, st) := greedy (tnext 6 par) (fun _ => 1) 100 (tree_initial 6 par pkts) in
+  cs = [9; 3; 7; 9; 14; 13; 14; 15; 6; 4; 13; 14; 16; 17] /\
+  run (tnext 6 par) (fun _ => 1) (tree_initial 6 par pkts) cs = Some st /\
+  n_done st = [(4%N, 4); (3%N, 4); (2%N, 4); (1%N, 5)] /\ concat (n_chan st) = [].
+Proof.
+  cbv zeta. split.
+  - intros v Hv. assert (C : v = 1 \/ v = 2 \/ v = 3 \/ v = 4 \/ v = 5) by lia.
+    destruct C as [->|[->|[->|[->| ->]]]]; cbn; lia.
+  - vm_compute. repeat split; reflexivity.
+Qed.
 
 (** Non-vacuity of the abstract theorems: a 3-channel line 0 -> 1 -> 2 -> device
     with capacity 1 each and two packets; the greedy schedule delivers both. *)
